@@ -425,6 +425,28 @@ def run_c11(tier, budget, rnd) -> StreamResult:
                                       "(the first search changed the caller's starting knowledge)",
                                       dict(ctx, second=again if isinstance(again, str) else {"enumerated": len(again[0])}),
                                       key="search:repeat")
+                # the search is requested for the knowledge the game has WHEN IT IS REQUESTED: the caller may go on revealing
+                # coalitions in the same game object before reading the result (the return type is Iterable)
+                if procs == procs_list[0] and unknown:
+                    try:
+                        g3 = ICG(n, BOUNDS[cls])
+                        g3.set_known_values(full.get_values(ks), ks)
+                        with warnings.catch_warnings():
+                            warnings.simplefilter("ignore")
+                            pending = get_exploitabilities_of_action_sequences(g3, full, fresh.gapf, max_size=k, processes=procs)
+                            later = unknown[len(unknown) // 2]
+                            g3.reveal_value(float(table[later]), Coalition(later))
+                            out3 = list(pending)
+                        late = ([[c.id for c in s_] for s_, _ in out3], [float(v_) for _, v_ in out3])
+                    except Exception as e:       # noqa: BLE001
+                        late = f"raised {type(e).__name__}"
+                    res.count("search:knowledge-changed-before-the-result-is-read")
+                    if late != (seqs, vals):
+                        res.violation("the result of an exhaustive search that was requested BEFORE a further coalition was revealed in "
+                                      "the same game object, read afterwards, is not the search for the knowledge at the time of the request",
+                                      dict(ctx, revealed_in_between=later,
+                                           got=late if isinstance(late, str) else {"enumerated": len(late[0])}, expected_sets=len(seqs)),
+                                      key="search:lazy")
                 if ref is None:
                     ref = (procs, seqs, vals)
                 elif (seqs, vals) != ref[1:]:
@@ -531,6 +553,12 @@ def run_c11(tier, budget, rnd) -> StreamResult:
             chosen = [g for g in chosen if g[2]] + [g for g in pool_games if g[2]]
             chosen = chosen[:reps + 2]
         tables = [g[1] for g in chosen]
+        if bi % 3 == 2:
+            # tiny-magnitude games (an ordinary hidden game times an exact power of two: every float operation commutes with the
+            # scaling): "the minimum mean gap" has no absolute tolerance
+            sc = 2.0 ** -rnd.choice([27, 30, 34, 40])
+            tables = [[x * sc for x in t] for t in tables]
+            res.count("best:scaled-games")
         in_class = all(g[2] for g in chosen[2:]) and cls != "sam_apx_1"
         procs = [1, 2, 5][bi % 3] if quick else rnd.choice([1, 2, 3, 5, 8])
         fresh = Fresh(n, cls, gapname)
@@ -1217,6 +1245,7 @@ def run_c13(tier, budget, rnd) -> StreamResult:
     BOUNDS, Coalition, minimal_game_coalitions, ICG, gaps = _mods()
 
     res = StreamResult("expected-greedy")
+    greedy_many_candidates(res, rnd, tier, budget)      # first: it must not depend on what the budget leaves over
     script = Script()
     quick = tier == "quick"
     combos = [("superadditive", "exploitability"), ("superadditive_cached", "l1_norm"),
@@ -1529,6 +1558,63 @@ def run_c13(tier, budget, rnd) -> StreamResult:
         res.disagree("expected-greedy: model ≠ implementation", {k: b[k] for k in ("line", "impl", "model", "ctx")})
     return res
 
+
+
+def greedy_many_candidates(res, rnd, tier, budget) -> None:
+    """expected-greedy with MANY candidates per round (n = 6: 56 explorable coalitions, n = 7: 119): whatever is done per batch /
+    chunk / buffer of candidates must not leak from one to the next.  Oracle on the real code only: every row is the fresh gap column
+    of the returned prefix, and every extension minimises the exact mean among ALL remaining candidates."""
+    from incomplete_cooperative.icg_gym import ICG_Gym
+    from incomplete_cooperative.run.greedy import get_greedy_rewards
+    BOUNDS, Coalition, minimal_game_coalitions, ICG, gaps = _mods()
+    for ci, (n, steps, reps, procs) in enumerate([(6, 2, 2, 1)] if tier == "quick" else [(6, 2, 2, 1), (6, 3, 1, 3), (7, 2, 1, 2), (6, 2, 3, 2)]):
+        if budget.left() < 12:
+            res.notes.append("greedy with many candidates skipped (budget)")
+            return
+        cls, gapname = "superadditive_cached", ["l1_norm", "exploitability"][ci % 2]
+        fresh = Fresh(n, cls, gapname)
+        minimal = G.minimal_ids(n)
+        explorable = [c for c in range(2 ** n) if c not in minimal]
+        tables = [[float(x) for x in G.sa_game(n, rnd, "int")] for _ in range(reps + 2)]
+        sampled = tables[2:2 + reps]
+        env = ICG_Gym(ICG(n, BOUNDS[cls]), ListGen(n, tables), minimal_game_coalitions(n), fresh.gapf, done_after_n_actions=steps)
+        ctx = {"n": n, "max_steps": steps, "repetitions": reps, "processes": procs, "computer": cls, "gap": gapname,
+               "sampled_games": sampled, "note": f"{len(explorable)} candidates in the first round"}
+        try:
+            with warnings.catch_warnings():
+                warnings.simplefilter("ignore")
+                rows, acts = get_greedy_rewards(env, steps, reps, fresh.gapf, procs)
+        except Exception as e:      # noqa: BLE001
+            res.violation(f"get_greedy_rewards raised {type(e).__name__} on an in-domain call", ctx, key="greedy:raised")
+            continue
+        rows = [[float(x) for x in r] for r in rows]
+        acts = [int(a) for a in acts]
+        res.evaluations += 1
+        res.count(f"greedy:many-candidates:n={n}")
+
+        def col(s_):
+            return [fresh.gap(t, set(minimal) | set(s_)) for t in sampled]
+        c2 = dict(ctx, actions=acts, rows=rows)
+        if len(acts) != steps or len(set(acts)) != len(acts) or not set(acts) <= set(explorable):
+            res.violation("expected-greedy: wrong length / repeated coalition / not explorable", c2, key="greedy:length")
+            continue
+        bad_row = next((i for i in range(steps + 1) if rows[i] != col(acts[:i])), None)
+        if bad_row is not None:
+            res.violation("expected-greedy row i ≠ fresh gaps of its first i coalitions on the sampled games",
+                          dict(c2, step=bad_row, expected=col(acts[:bad_row])), key="greedy:row")
+            continue
+        for i in range(steps):
+            rem = [c for c in explorable if c not in acts[:i]]
+            ex = {c: sum((Fraction(x) for x in col(acts[:i] + [c])), Fraction(0)) / reps for c in rem}
+            mn = min(ex.values())
+            if ex[acts[i]] != mn:
+                best = min(rem, key=lambda c: ex[c])
+                res.violation("expected-greedy extension does not minimise the (exact) mean gap among the remaining candidates",
+                              dict(c2, step=i, chosen=acts[i], chosen_mean=float(ex[acts[i]]), minimiser=best, minimum_mean=float(mn)),
+                              key="greedy:argmin")
+                break
+        else:
+            res.nontrivial.add(("greedy-many", n, steps, reps))
 
 
 def replay_c11_search(inp: dict):
